@@ -351,12 +351,11 @@ Record msg_result := mkRes {
 
 (* session.AsyncCall, then the remote srv_call, then binding -> bindReply -> handleReply on
    the calling side.  [gc] = caller's global flat list, [gs] = callee's. *)
-Definition exchange_call (gc gs : list plugin) (h : option hview) : msg_result :=
+Definition exchange_call_sr (gc : list plugin) (sr : srv_result) : msg_result :=
   if vetoes PreWriteCall gc then
     mkRes false [(PreWriteCall, gc)] [] [] [] [] (verdict_of PreWriteCall gc)
   else
     let w := [(PreWriteCall, gc); (PostWriteCall, gc)] in
-    let sr := srv_call gs h in
     match sr_out sr with
     | SReplied code =>
         let fin pl prh st := mkRes true (w ++ pl) prh (sr_prh sr) (sr_plan sr) (sr_invoked sr) st in
@@ -374,13 +373,18 @@ Definition exchange_call (gc gs : list plugin) (h : option hview) : msg_result :
     | _ => mkRes true w [] (sr_prh sr) (sr_plan sr) (sr_invoked sr) code_conn_closed
     end.
 
+Definition exchange_call (gc gs : list plugin) (h : option hview) : msg_result :=
+  exchange_call_sr gc (srv_call gs h).
+
 (* session.Push, then the remote srv_push. *)
-Definition exchange_push (gc gs : list plugin) (h : option hview) : msg_result :=
+Definition exchange_push_sr (gc : list plugin) (sr : srv_result) : msg_result :=
   if vetoes PreWritePush gc then
     mkRes false [(PreWritePush, gc)] [] [] [] [] (verdict_of PreWritePush gc)
   else
-    let sr := srv_push gs h in
     mkRes true [(PreWritePush, gc); (PostWritePush, gc)] [] (sr_prh sr) (sr_plan sr) (sr_invoked sr) 0.
+
+Definition exchange_push (gc gs : list plugin) (h : option hview) : msg_result :=
+  exchange_push_sr gc (srv_push gs h).
 
 Inductive msg := MCall (hid : N) | MPush (hid : N).
 
@@ -422,6 +426,112 @@ Definition spec_exchange (cli srv : spec) (m : msg) : msg_result :=
   match m with
   | MCall hid => exchange_call (spec_global cli) (spec_global srv) (spec_lookup srv KCall hid)
   | MPush hid => exchange_push (spec_global cli) (spec_global srv) (spec_lookup srv KPush hid)
+  end.
+
+(* ---- two fault paths of the handling side ----
+   FNoPool: session.startReadAndHandle finds no goroutine in the pool (Go returns false).
+     A CALL is then handled on the read goroutine with ctx.stat preset to 500 "no goroutine
+     available" UNLESS binding already left a status (hook refusal, 404): handleCall skips
+     PostReadCallBody and the handler and replies.  A PUSH is skipped after binding.
+   FBadReply: the handler's result cannot be written (body codec cannot encode it, size
+     limit, failing filter): context.go handleCall's first writeReply fails with a
+     non-connection error, a substitute 500 reply is written WITHOUT running PreWriteReply
+     again, and PostWriteReply does not run. *)
+Inductive fault := FNone | FNoPool | FBadReply.
+
+Definition code_internal : Z := 500.       (* status.go CodeInternalServerError *)
+
+Definition srv_call_nopool (g : list plugin) (h : option hview) : srv_result :=
+  if vetoes PreReadHeader g then mkSrv [(PreReadHeader, g)] [] [] SDisconnect
+  else
+    let reply cur pre code :=
+      mkSrv [(PreReadHeader, g)] (pre ++ [(PreWriteReply, cur); (PostWriteReply, cur)]) [] (SReplied code) in
+    if vetoes PostReadCallHeader g then
+      reply g [(PostReadCallHeader, g)] (verdict_of PostReadCallHeader g)
+    else match h with
+    | None => reply g [(PostReadCallHeader, g)] code_not_found
+    | Some (hid, hs, hc) =>
+        if vetoes PreReadCallBody hc then
+          reply hc [(PostReadCallHeader, g); (PreReadCallBody, hc)] (verdict_of PreReadCallBody hc)
+        else
+          reply hc [(PostReadCallHeader, g); (PreReadCallBody, hc)] code_internal
+    end.
+
+Definition srv_call_badreply (g : list plugin) (h : option hview) : srv_result :=
+  if vetoes PreReadHeader g then mkSrv [(PreReadHeader, g)] [] [] SDisconnect
+  else
+    let reply cur pre inv code :=
+      mkSrv [(PreReadHeader, g)] (pre ++ [(PreWriteReply, cur); (PostWriteReply, cur)]) inv (SReplied code) in
+    if vetoes PostReadCallHeader g then
+      reply g [(PostReadCallHeader, g)] [] (verdict_of PostReadCallHeader g)
+    else match h with
+    | None => reply g [(PostReadCallHeader, g)] [] code_not_found
+    | Some (hid, hs, hc) =>
+        let pre3 := [(PostReadCallHeader, g); (PreReadCallBody, hc); (PostReadCallBody, hc)] in
+        if vetoes PreReadCallBody hc then
+          reply hc [(PostReadCallHeader, g); (PreReadCallBody, hc)] [] (verdict_of PreReadCallBody hc)
+        else if vetoes PostReadCallBody hc then reply hc pre3 [] (verdict_of PostReadCallBody hc)
+        else if Z.eqb hs 0 then
+          (* regular reply unwritable: one PreWriteReply, substitute 500, no PostWriteReply *)
+          mkSrv [(PreReadHeader, g)] (pre3 ++ [(PreWriteReply, hc)]) [hid] (SReplied code_internal)
+        else reply hc pre3 [hid] hs
+    end.
+
+Definition srv_push_nopool (g : list plugin) (h : option hview) : srv_result :=
+  if vetoes PreReadHeader g then mkSrv [(PreReadHeader, g)] [] [] SDisconnect
+  else
+    let fin pl := mkSrv [(PreReadHeader, g)] pl [] SNoReply in
+    if vetoes PostReadPushHeader g then fin [(PostReadPushHeader, g)]
+    else match h with
+    | None => fin [(PostReadPushHeader, g)]
+    | Some (hid, hs, hc) => fin [(PostReadPushHeader, g); (PreReadPushBody, hc)]
+    end.
+
+Definition srv_call_f (f : fault) (g : list plugin) (h : option hview) : srv_result :=
+  match f with
+  | FNone => srv_call g h
+  | FNoPool => srv_call_nopool g h
+  | FBadReply => srv_call_badreply g h
+  end.
+
+Definition srv_push_f (f : fault) (g : list plugin) (h : option hview) : srv_result :=
+  match f with
+  | FNoPool => srv_push_nopool g h
+  | _ => srv_push g h
+  end.
+
+Definition exchange_f (f : fault) (cli srv : pstate) (m : msg) : msg_result :=
+  match m with
+  | MCall hid => exchange_call_sr (global_flat cli)
+                   (srv_call_f f (global_flat srv) (option_map (view srv) (lookup srv KCall hid)))
+  | MPush hid => exchange_push_sr (global_flat cli)
+                   (srv_push_f f (global_flat srv) (option_map (view srv) (lookup srv KPush hid)))
+  end.
+
+Definition spec_exchange_f (f : fault) (cli srv : spec) (m : msg) : msg_result :=
+  match m with
+  | MCall hid => exchange_call_sr (spec_global cli) (srv_call_f f (spec_global srv) (spec_lookup srv KCall hid))
+  | MPush hid => exchange_push_sr (spec_global cli) (srv_push_f f (spec_global srv) (spec_lookup srv KPush hid))
+  end.
+
+(* the two variants the fault paths must NOT be: the pool fallback overwriting a status that
+   binding left, and the substitute reply going through PreWriteReply a second time *)
+Definition srv_call_nopool_overwrite (g : list plugin) (h : option hview) : srv_result :=
+  let sr := srv_call_nopool g h in
+  match sr_out sr with
+  | SReplied _ => mkSrv (sr_prh sr) (sr_plan sr) (sr_invoked sr) (SReplied code_internal)
+  | _ => sr
+  end.
+
+Definition srv_call_badreply_again (g : list plugin) (h : option hview) : srv_result :=
+  let sr := srv_call_badreply g h in
+  match h with
+  | Some (hid, hs, hc) =>
+      if negb (existsb (fun sc => N.eqb (stage_id (fst sc)) (stage_id PostWriteReply)) (sr_plan sr))
+         && negb (vetoes PreReadHeader g)
+      then mkSrv (sr_prh sr) (sr_plan sr ++ [(PreWriteReply, hc)]) (sr_invoked sr) (sr_out sr)
+      else sr
+  | None => sr
   end.
 
 (* ---- the sending side under redial: session.Push / session.AsyncCall label W ----
